@@ -592,6 +592,20 @@ def eoie_cases(rng, n):
         b += hfun(hs)(b).digest()
         # the file is valid for git in every variant (an EOIE it does not like is ignored); go-git insists on 4 + hash bytes
         cases.append(dec_case("synth-eoie-" + k, b, hs, valid=(sz >= 24), threads=True))
+    # an EOIE offset beyond 16 bits: a file of > 64 KB (too long for the Coq side: direct oracle only).  The offset points at a
+    # REUC nested in an optional extension, so `git -c index.threads=2` shows whether git accepts offset and hash
+    es = []
+    for i in range(15):
+        nm = b"H%02d/" % i + bytes(rng.choice(b"abc") for _ in range(4400 + rng.randrange(0, 200)))
+        es.append(rentry(rng, hs, nm, 0))
+    body = build_index({"version": 2, "entries": es, "trailer": "ok"}, hs)[:-hs]
+    p = b"huge/" + rname(rng, False)
+    ru = enc_reuc_ext([{"path": p, "modes": {1: 0o100644, 2: 0, 3: 0o100755}, "hashes": {1: rhash(rng, hs), 3: rhash(rng, hs)}}], hs)
+    inner = b"REUC" + struct.pack(">I", len(ru)) + ru
+    hh = hfun(hs)(inner[:8]).digest()
+    b = body + b"ZZZZ" + struct.pack(">I", len(inner)) + inner + b"EOIE" + struct.pack(">I", 24) + struct.pack(">I", len(body) + 8) + hh
+    b += hfun(hs)(b).digest()
+    cases.append(dec_case("synth-eoie-huge", b, hs, valid=True, nomodel=True, eoie_expect=[len(body) + 8, H(hh), H(p)]))
     return cases
 
 
@@ -902,6 +916,8 @@ class Dec(Suite):
         return cases
 
     def model_expr(self, c):
+        if c.get("nomodel"):          # beyond what coqc evaluates in reasonable time: direct oracle only
+            return None
         return 'c12_decs %s %s %s %s' % (coq_N(c["hs"]), coq_bool(c["skiphash"]), coq_list(['"%s"' % s for s in c["sums"]]), chunks(bytes.fromhex(c["data"])))
 
     def nontrivial(self, c):
@@ -925,7 +941,7 @@ class Dec(Suite):
                 nt += 1
                 m += "t"
             self.modes[c["id"]] = m
-        self.S = eval_s(ctx, [(c["id"], bytes.fromhex(c["data"]), c["hs"], self.modes[c["id"]]) for c in cases])
+        self.S = eval_s(ctx, [(c["id"], bytes.fromhex(c["data"]), c["hs"], self.modes[c["id"]]) for c in cases if not c.get("nomodel")])
         self.G = {}
         for c in cases:
             r = impl.get(c["id"])
@@ -968,6 +984,14 @@ class Dec(Suite):
             if got_ru != {k: {s: mo[1] for s, mo in v.items()} for k, v in gru.items()}:
                 fails[c["id"]] = "resolve-undo differs from git ls-files --resolve-undo: go-git %r / git %r" % (got_ru, gru)
                 continue
+            if "eoie_expect" in c:      # git -c index.threads=2 finds the nested REUC only through the EOIE offset and hash
+                off, hh, path = c["eoie_expect"]
+                gt = gr.read(data, c["hs"], threads=2)
+                if gt is None or bytes.fromhex(path) not in gt[1] or bytes.fromhex(path) in gru:
+                    ctx.notes.append("generator fault: git does not follow the EOIE of a %s case" % c["bucket"])
+                elif o[5] == "none" or o[5][1] != [str(off), "x" + hh]:
+                    fails[c["id"]] = "EOIE differs from the one git follows (offset %d): go-git %s" % (off, unparse(o[5]))
+                    continue
             # cache tree and EOIE: what git makes of them according to S
             s = self.S.get(c["id"])
             if not s or s_err(s[0]) is not None:
@@ -1011,6 +1035,8 @@ class Dec(Suite):
         for c in cases:
             s = self.S.get(c["id"])
             if c["id"] not in self.G:
+                continue
+            if c.get("nomodel"):
                 continue
             if not s:
                 mism(c, "S did not evaluate")
